@@ -162,4 +162,26 @@ def Complete (j : Job) (sched : List Nat) : Prop :=
   ∀ i src, j.parts[i]? = some src → src.length + 6 ≤ sched.count i
 
 end Programs
+/-! ### ANY task programs that touch only their own state
+
+The pipeline above is one instance. Whatever a partition task computes (any chain of element-wise stages, sampling,
+persistence, …), as long as each task's micro-steps read and write only that task's own state, a thread pool is
+`runAny`: the list of task states, the thread chosen by the schedule stepping its own component. -/
+section Generic
+variable {σ : Type}
+
+def stepAt (step : Nat → σ → σ) (i : Nat) (s : List σ) : List σ := s.modify i (step i)
+
+def runAny (step : Nat → σ → σ) (sched : List Nat) (s : List σ) : List σ := sched.foldl (fun s i => stepAt step i s) s
+
+/-- task `i`'s program has finished after `n i` steps: further steps change nothing -/
+def Quiescent (step : Nat → σ → σ) (n : Nat → Nat) (s0 : List σ) : Prop :=
+  ∀ i t, s0[i]? = some t → step i (iter (step i) (n i) t) = iter (step i) (n i) t
+
+/-- every task run alone to completion, one after the other (the in-process executor / a process pool) -/
+def runEachAlone (step : Nat → σ → σ) (n : Nat → Nat) (s0 : List σ) : List σ :=
+  s0.zipIdx.map fun (t, i) => iter (step i) (n i) t
+
+end Generic
+
 end PysparklingVerif.Sched
